@@ -79,13 +79,15 @@ func (b Bundle) Fragment(mtu int) (bs []Bundle, err error) {
 				continue
 			}
 
-			fragBundle.AddExtensionBlock(cb)
+			// Blocks keep their block number and their relative order, RFC 9171 section 5.8.
+			fragBundle.CanonicalBlocks = append(fragBundle.CanonicalBlocks, cb)
 		}
 
 		fragPayloadBlockLen := mtu - overhead
 
 		offset := int(math.Min(float64(i+fragPayloadBlockLen), float64(len(payloadBlock.Value.(*PayloadBlock).Data()))))
-		fragBundle.AddExtensionBlock(CanonicalBlock{
+		fragBundle.CanonicalBlocks = append(fragBundle.CanonicalBlocks, CanonicalBlock{
+			BlockNumber:       payloadBlock.BlockNumber,
 			BlockControlFlags: payloadBlock.BlockControlFlags,
 			CRCType:           payloadBlock.CRCType,
 			Value:             NewPayloadBlock(payloadBlock.Value.(*PayloadBlock).Data()[i:offset]),
@@ -259,7 +261,7 @@ func ReassembleFragments(bs []Bundle) (b Bundle, err error) {
 			continue
 		}
 
-		b.AddExtensionBlock(cb)
+		b.CanonicalBlocks = append(b.CanonicalBlocks, cb)
 	}
 
 	if payload, payloadErr := mergeFragmentPayload(bs); payloadErr != nil {
@@ -275,7 +277,7 @@ func ReassembleFragments(bs []Bundle) (b Bundle, err error) {
 		cb := NewCanonicalBlock(1, pb0.BlockControlFlags, NewPayloadBlock(payload))
 		cb.SetCRCType(pb0.CRCType)
 
-		b.AddExtensionBlock(cb)
+		b.CanonicalBlocks = append(b.CanonicalBlocks, cb)
 	}
 
 	err = b.CheckValid()
